@@ -123,9 +123,21 @@ def execute(prop, tape, env):
     finally:
         signal.signal(signal.SIGALRM, old)
     dk = hashlib.sha256(repr(ctx.dkey_parts).encode()).hexdigest()[:16]
+    # run digest: event log + decoded workload/schedule/faults + outcome + counters + consumed tape
+    import json as _json
+    h = hashlib.sha256()
+    h.update(ctx.log.digest().encode())
+    try:
+        h.update(_json.dumps(ctx.decoded, sort_keys=True, default=str).encode())
+    except Exception:
+        h.update(repr(sorted(ctx.decoded)).encode())
+    h.update(repr((kind, cls, site, detail if kind != "harness_error" else "")).encode())
+    h.update(repr(sorted(ctx.counters.items())).encode())
+    h.update(repr(tape.values).encode())
+    h.update(dk.encode())
     return Outcome(kind=kind, cls=cls, detail=detail, site=site,
                    decoded=ctx.decoded if kind == "violation" or env.get("want_decoded") else None,
-                   digest=ctx.log.digest(), counters=ctx.counters, dkey=dk,
+                   digest=h.hexdigest(), counters=ctx.counters, dkey=dk,
                    nontrivial=ctx.nontrivial, sample=ctx.sample, extra=extra), ctx
 
 
